@@ -286,6 +286,17 @@ func TestTableModuleForms(t *testing.T) {
 	col.Done(t)
 }
 
+// clockDependent: the script reads the wall clock (`time.now()`); two runs of it need not print the same text, so a
+// comparison of two runs says nothing about the code.
+func clockDependent(mods map[string]string) bool {
+	for _, text := range mods {
+		if strings.Contains(text, "time.now") {
+			return true
+		}
+	}
+	return false
+}
+
 func TestTableShipped(t *testing.T) {
 	pk.SkipIfReplay(t)
 	col := pk.NewCollector()
@@ -321,6 +332,10 @@ func TestTableShipped(t *testing.T) {
 					todo = append(todo, string(gb))
 				}
 			}
+		}
+		if clockDependent(mods) {
+			pk.Class("shipped-skipped:reads-the-clock")
+			continue
 		}
 		for _, kind := range []string{"parsed", "analyzed", "optimize"} {
 			k++
